@@ -95,6 +95,9 @@ class Evaluator:
             return self.binop(o)
         if k == "field":
             base = o[1]
+            nb = self.peel(base)
+            if nb is not base and nb[0] == "agg" and nb[1][0] in ("adt", "tuple") and isinstance(o[2], int) and o[2] < len(nb[2]):
+                return self.ev(nb[2][o[2]])
             # (a OpWithOverflow b).0 / .1
             if base[0] == "bin" and base[1].endswith("WithOverflow"):
                 val, ovf = self.binop(base, pair=True)
@@ -106,6 +109,17 @@ class Evaluator:
                     if not inner[1]:
                         raise Panic("payload of None")
                     return inner[2]
+                if isinstance(inner, tuple) and inner[0] in ("res", "cf"):
+                    # Ok.0 / Err.0 of a result value, Continue.0 / Break.0 of a `?`
+                    want_ok = base[3] in ("Ok", "Continue")
+                    if inner[1] != want_ok:
+                        raise Panic("payload of another variant")
+                    pl = inner[2]
+                    if isinstance(pl, tuple) and pl and pl[0] == "lazy":
+                        return self.ev(pl[1])
+                    if pl is None:
+                        raise Unknown("payload of %s" % (base[3],))
+                    return pl
                 raise Unknown("payload of %s" % (base[3],))
             raise Unknown("field %s" % (o[3],))
         if k == "discr":
@@ -114,7 +128,23 @@ class Evaluator:
                 return 1 if inner[1] else 0
             if isinstance(inner, tuple) and inner[0] == "enum":
                 return inner[1]
+            if isinstance(inner, tuple) and inner[0] in ("res", "cf"):
+                return 0 if inner[1] else 1
             raise Unknown("discriminant")
+        if k == "call" and (o[1] or "").endswith("ops::try_trait::Try::branch") and o[3]:
+            # `?` on a value of known shape
+            a = o[3][0]
+            if a[0] == "agg" and a[1][0] == "adt" and a[1][3] in ("Ok", "Some", "Err", "None"):
+                cont = a[1][3] in ("Ok", "Some")
+                return ("cf", cont, ("lazy", a[2][0]) if cont and a[2] else None)
+            try:
+                v = self.ev(a)
+            except Unknown:
+                v = None
+            if isinstance(v, tuple) and v[0] == "res":
+                return ("cf", v[1], v[2] if v[1] else None)
+            if isinstance(v, tuple) and v[0] == "opt":
+                return ("cf", v[1], v[2] if v[1] else None)
         if k == "call":
             if self.call is not None:
                 v = self.call(o[1] or "", o[2] or "", o[3], self)
@@ -122,6 +152,25 @@ class Evaluator:
                     return v
             raise Unknown("call %s" % (o[2] or o[1]))
         raise Unknown("%s" % (k,))
+
+    def peel(self, o):
+        """the aggregate an origin stands for when it is the payload of a literal Ok/Some/Continue taken apart again:
+        `(Ok(x)? )`, `Ok(x) as Ok.0`, references"""
+        for _ in range(8):
+            if not isinstance(o, tuple) or not o:
+                return o
+            if o[0] in ("ref", "deref"):
+                o = o[1]
+                continue
+            if o[0] == "field" and o[2] == 0 and isinstance(o[1], tuple) and o[1][0] == "downcast" and o[1][3] in ("Continue", "Ok", "Some"):
+                x = o[1][1]
+                if x[0] == "call" and (x[1] or "").endswith("ops::try_trait::Try::branch") and x[3]:
+                    x = x[3][0]
+                if x[0] == "agg" and x[1][0] == "adt" and x[1][3] in ("Ok", "Some", "Continue") and x[2]:
+                    o = x[2][0]
+                    continue
+            return o
+        return o
 
     def binop(self, o, pair=False):
         op = o[1]
@@ -353,7 +402,10 @@ class Model:
         # the I/O that produced the bytes is assumed to have succeeded (its failure is returned by `?` before any byte is looked at)
         if o[0] == "discr" and o[1][0] == "call" and (o[1][1] or "").endswith("Try::branch"):
             inner = o[1][3][0] if o[1][3] else None
-            if inner is not None and inner[0] == "call" and not (self.local_prefix and (inner[2] or inner[1] or "").startswith(self.local_prefix)):
+            if inner is not None and inner[0] == "call" and (inner[1] or "").endswith("FromResidual::from_residual"):
+                return 1          # `?` on the value a failed `?` produced: the failure variant again
+            if inner is not None and inner[0] == "call" and not (self.local_prefix and (inner[2] or inner[1] or "").startswith(self.local_prefix)) \
+                    and not re.search(r"convert::(TryFrom::try_from|TryInto::try_into)$|::checked_\w+$", inner[1] or ""):
                 return 0
         return None
 
@@ -413,6 +465,15 @@ class Model:
                 return 1 if ov[1] and clo(args[1], ov[2]) else 0
         if IDENT.search(d) or IDENT.search(name):
             return ev.ev(args[0])
+        m = re.search(r"convert::num::<impl core::convert::TryFrom<[ui](?:8|16|32|64|128|size)> for ([ui](?:8|16|32|64|128|size))>::try_from$", rd or "")
+        if m and len(args) == 1:
+            v = ev.ev(args[0])          # checked integer conversion: Ok(v) when it fits, Err otherwise
+            if isinstance(v, int):
+                return ("res", fits(v, m.group(1)), v)
+        if re.search(r"convert::num::<impl core::convert::From<(u8|u16|u32|u64|usize|i8|i16|i32|i64|bool)> for [ui](8|16|32|64|128|size)>::from$", rd or "") and len(args) == 1:
+            v = ev.ev(args[0])          # lossless integer widening
+            if isinstance(v, int):
+                return v
         if re.search(r"Index::index$", d) and len(args) == 2:
             return self.index(ev.ev(args[0]), ev.ev(args[1]))
         if re.search(r"RangeInclusive::<Idx>::new$", d):
